@@ -36,6 +36,23 @@ fn setup_files() {
     // deformation velocities in mm/yr (north, east, up): A = up 1000, B = up 2000
     write("deformation", "verif_a.deformation", constant_grid((55, 57), (10, 12), &[0.0, 0.0, 1000.0]));
     write("deformation", "verif_b.deformation", constant_grid((54, 58), (8, 16), &[0.0, 0.0, 2000.0]));
+    // smoothly varying grids for the round trips: a geoid (m), a datum shift (arcsec) and a deformation model (mm/yr)
+    write("geoid", "verif_v.geoid", varying_grid((53, 59), (7, 17), &[(30.0, 0.75, -0.5)]));
+    write("datum", "verif_v.datum", varying_grid((53, 59), (7, 17), &[(20.0, 1.5, -2.0), (-40.0, -3.0, 1.0)]));
+    write("deformation", "verif_v.deformation", varying_grid((53, 59), (7, 17), &[(3.0, 0.5, 0.25), (-2.0, 0.25, -0.5), (1.0, -0.125, 0.375)]));
+}
+// value of band b at a node = c0 + c1 * (lat - lat_s) + c2 * (lon - lon_w)
+fn varying_grid(lat: (i32, i32), lon: (i32, i32), bands: &[(f64, f64, f64)]) -> String {
+    let mut s = format!("{} {} {} {} 1 1\n", lat.0, lat.1, lon.0, lon.1);
+    for la in (lat.0..=lat.1).rev() {
+        for lo in lon.0..=lon.1 {
+            for (c0, c1, c2) in bands {
+                s += &format!(" {}", c0 + c1 * (la - lat.0) as f64 + c2 * (lo - lon.0) as f64);
+            }
+        }
+        s += "\n";
+    }
+    s
 }
 const IN_A: (f64, f64) = (56.0, 11.0); // inside A and B
 const ONLY_B: (f64, f64) = (54.5, 9.0); // inside B only
@@ -386,4 +403,97 @@ fn verif_native_c15_gravsoft_layout() {
         }
     }
     assert!(fails.is_empty(), "C15.N.gravsoft.layout: {} of {} texts wrong, first: {:?}", fails.len(), n, &fails[..fails.len().min(5)]);
+}
+
+
+//@n {"id":"C01.N.grid.roundtrip","props":["C01","C08"],"tier":"quick","bound":"generated smoothly varying Gravsoft grids (7x11 nodes): a geoid, a two-band datum shift (up to 40 arcsec) and a three-band deformation model; gridshift (geoid, datum) and deformation (dt=10, and t_epoch with mixed tuple epochs) on a 25x25 lattice strictly inside coverage x 2 heights, forward-then-inverse and inverse-then-forward; through Plain","text":"grid based shifts inside grid coverage: applying the operator forward and then inverse returns the original coordinate (1e-5 m; the geoid shift exactly up to rounding), and the same inverse-then-forward; every lattice point is counted in both directions; the forward geoid shift changes the height by the interpolated grid value and nothing else; epochs come back bit-identical"}
+#[test]
+fn verif_native_c01_grid_roundtrip() {
+    setup();
+    let mut ctx = Plain::default();
+    let mut fails: Vec<String> = Vec::new();
+    let mut ids: Vec<String> = Vec::new();
+    let mut n = 0;
+    let cart = ctx.op("cart").unwrap();
+    let mut geo: Vec<Coor4D> = Vec::new();
+    for i in 0..25 {
+        for j in 0..25 {
+            for h in [0.0, 1234.5] {
+                let e = [2000.0, 2015.5, 1990.25][(i + j) % 3];
+                geo.push(Coor4D::geo(54.03 + 4.0 * i as f64 / 24.0, 8.07 + 8.0 * j as f64 / 24.0, h, e));
+            }
+        }
+    }
+    let mut xyz = geo.clone();
+    ctx.apply(cart, Fwd, &mut xyz).unwrap();
+    let metres = |a: &Coor4D, b: &Coor4D, angular: bool| {
+        if angular {
+            (((a[0] - b[0]) * a[1].cos() * 6.4e6).powi(2) + ((a[1] - b[1]) * 6.4e6).powi(2) + (a[2] - b[2]).powi(2)).sqrt()
+        } else {
+            ((a[0] - b[0]).powi(2) + (a[1] - b[1]).powi(2) + (a[2] - b[2]).powi(2)).sqrt()
+        }
+    };
+    let cases: [(&str, bool, f64); 4] = [
+        ("gridshift grids=verif_v.geoid", true, 1e-9),
+        ("gridshift grids=verif_v.datum", true, 1e-5),
+        ("deformation dt=10 grids=verif_v.deformation", false, 1e-5),
+        ("deformation t_epoch=2010 grids=verif_v.deformation", false, 1e-5),
+    ];
+    for (ci, (def, angular, tol)) in cases.iter().enumerate() {
+        let op = match ctx.op(def) {
+            Ok(op) => op,
+            Err(e) => {
+                ids.push(format!("{ci}new"));
+                fails.push(format!("`{def}`: {e:?}"));
+                continue;
+            }
+        };
+        let start = if *angular { geo.clone() } else { xyz.clone() };
+        for (first, second, d) in [(Fwd, Inv, "FI"), (Inv, Fwd, "IF")] {
+            n += 1;
+            let mut w = start.clone();
+            let a = ctx.apply(op, first, &mut w).unwrap();
+            let mid = w.clone();
+            let b = ctx.apply(op, second, &mut w).unwrap();
+            let mut bad: Option<String> = None;
+            if a != start.len() || b != start.len() {
+                bad = Some(format!("counted {a} then {b} of {} points inside coverage", start.len()));
+            }
+            let mut moved = 0.0f64;
+            for k in 0..start.len() {
+                let r = metres(&start[k], &w[k], *angular);
+                moved = moved.max(metres(&start[k], &mid[k], *angular));
+                if !(r <= *tol) && bad.is_none() {
+                    bad = Some(format!("residual {r:.3e} m > {tol} m: {:?} -> {:?} -> {:?}", start[k], mid[k], w[k]));
+                }
+                if start[k][3].to_bits() != w[k][3].to_bits() && bad.is_none() {
+                    bad = Some(format!("epoch changed: {:?} -> {:?}", start[k], w[k]));
+                }
+            }
+            if !(moved > 1e-3) && bad.is_none() {
+                bad = Some(format!("the operator moves nothing (largest displacement {moved:.3e} m): the round trip is vacuous"));
+            }
+            if let Some(b) = bad {
+                ids.push(format!("{ci}{d}"));
+                fails.push(format!("`{def}` {d}: {b}"));
+            }
+        }
+        // geoid: forward changes the height by the grid value (c0 + c1*(lat-53) + c2*(lon-7), bilinear => exact), nothing else
+        if ci == 0 {
+            n += 1;
+            let mut w = geo.clone();
+            ctx.apply(op, Fwd, &mut w).unwrap();
+            for k in 0..geo.len() {
+                let (lon, lat) = (geo[k][0].to_degrees(), geo[k][1].to_degrees());
+                let nval = 30.0 + 0.75 * (lat - 53.0) - 0.5 * (lon - 7.0);
+                let dz = (geo[k][2] - w[k][2]).abs();
+                if !((dz - nval).abs() < 1e-4) || w[k][0].to_bits() != geo[k][0].to_bits() || w[k][1].to_bits() != geo[k][1].to_bits() {
+                    ids.push("0val".into());
+                    fails.push(format!("`{def}`: at ({lat}, {lon}) the height changes by {dz}, the grid says {nval}; horizontal {:?} -> {:?}", geo[k], w[k]));
+                    break;
+                }
+            }
+        }
+    }
+    assert!(fails.is_empty(), "C01.N.grid.roundtrip: FAILSET{{{}}} {} of {} checks fail, first: {:?}", ids.join(","), fails.len(), n, &fails[..fails.len().min(4)]);
 }
